@@ -7,7 +7,7 @@ CONSTANTS
   MaxV = 1
   Cairo0 = {"k0"}
   Sierra = {}
-  TxIds = {"t1", "l1a"}
+  TxIds = {"t1", "t2", "l1a"}
   L1Txs = {"l1a"}
   MaxBlocks = 3
   MaxOps = 2
